@@ -1,0 +1,25 @@
+"""Verification hooks (add-only).
+
+Disabled unless the environment variable DASK_EXPR_VERIF=1 is set when dask_expr is
+imported. When enabled, planner events are handed to a sink installed with
+``set_sink``; without a sink they are counted only. Nothing in dask_expr depends on
+this module's behaviour.
+"""
+import os
+
+ENABLED = os.environ.get("DASK_EXPR_VERIF", "") == "1"
+
+_sink = None
+counters = {}
+
+
+def set_sink(fn):
+    """Install ``fn(kind, fields_dict)`` as the receiver of events (``None`` removes it)."""
+    global _sink
+    _sink = fn
+
+
+def emit(kind, **fields):
+    counters[kind] = counters.get(kind, 0) + 1
+    if _sink is not None:
+        _sink(kind, fields)
